@@ -215,6 +215,15 @@ def has_nested_namespace(u: dict, root: int) -> bool:
     return any(len(td["ns"]) >= 2 for td in generated_root(u, root)["types"])
 
 
+def has_sibling_namespaces(u: dict, root: int) -> bool:
+    """Some namespace of the generated root has >= 2 directly nested namespaces (set-order of siblings can matter)."""
+    children: typing.Dict[tuple, set] = {}
+    for td in generated_root(u, root)["types"]:
+        for d in range(1, len(td["ns"])):
+            children.setdefault(tuple(td["ns"][:d]), set()).add(td["ns"][d])
+    return any(len(c) >= 2 for c in children.values())
+
+
 class Layout:
     """Directory layout of one pair below its own scratch directory: everything that is not drawn is identical for A and B."""
 
@@ -503,6 +512,7 @@ STR_RE = re.compile(r'"[^"\n]*"|\'[^\'\n]*\'')
 NUM_RE = re.compile(r"\b0x[0-9A-Fa-f]+\b|\b\d+(?:\.\d+)?\b")
 TS_RE = re.compile(r"\d{4}-\d\d-\d\d[ T]\d\d:\d\d:\d\d(?:\.\d+)?")
 WORD_RE = re.compile(r"[A-Za-z_][A-Za-z0-9_]*")
+UNIQ_RE = re.compile(r"(?<![A-Za-z0-9])_[A-Za-z]+(?:_[A-Za-z]+)*[0-9]+(?:_[0-9]+)?_(?![A-Za-z0-9])")  # _err3_, _size_bytes12_
 
 
 def universe_names(u: dict) -> typing.Set[str]:
@@ -524,6 +534,7 @@ def normalise_line(line: str, names: typing.Set[str]) -> str:
     """Shape of a line with everything that depends on the drawn universe / paths / numbers masked."""
     s = line.strip()
     s = TS_RE.sub("<TIMESTAMP>", s)
+    s = UNIQ_RE.sub("<U>", s)
     s = PATH_RE.sub("<PATH>", s)
     s = STR_RE.sub("<STR>", s)
     s = NUM_RE.sub("<N>", s)
@@ -541,7 +552,6 @@ def normalise_line(line: str, names: typing.Set[str]) -> str:
     return s[:90]
 
 
-UNIQ_RE = re.compile(r"(?<![A-Za-z0-9])_[A-Za-z]+(?:_[A-Za-z]+)*[0-9]+(?:_[0-9]+)?_(?![A-Za-z0-9])")  # _err3_, _size_bytes12_
 HTML_UNIQ_RE = re.compile(r"(?<=[\w.])\d+(?=[\"'_)])")  # html tag ids: "<tag_id><n>"
 
 
@@ -887,6 +897,10 @@ def run(ctx: core.Ctx):
             if "hashseed" in axes and (j["a"]["hs"] not in HASHSEEDS or j["b"]["hs"] not in HASHSEEDS):
                 classes.append("hashseed.random")
             classes.append("universe.nested" if nested else "universe.flat")
+            if has_sibling_namespaces(j["u"], j["root"]):
+                classes.append("universe.sibling_namespaces")
+                if "hashseed" in axes:
+                    classes.append("universe.sibling_namespaces+axis.hashseed")
             if len(j["u"]["roots"]) > 1:
                 classes.append("universe.multi_root")
                 if j["root"] > 0:
